@@ -13,6 +13,8 @@ the specification's ghost (marks, observed snapshot, set of keys changed since t
 -/
 import Karp.Proofs.ClusterStateClosed
 import Karp.Proofs.ClusterStateUsage
+import Karp.Model.ClusterStateExt
+import Karp.Spec.ClusterAbsDs
 
 namespace Karp.C11
 open Karp.ClusterState Karp.Spec.ClusterAbs
@@ -477,5 +479,81 @@ def histC : List Event :=
    .delClaim "c1", .delClaim "c2", .recClaim "c1", .recClaim "c2"]
 
 theorem C11_duplicate_ids_panic : (match run Fixes.none {} {} histC with | .error _ => true | .ok _ => false) = true := by decide
+
+
+/-! ## Several provider ids in one call, failed volume lookups, the DaemonSet pod cache (`Model/ClusterStateExt.lean`) -/
+
+/-- `updateForPod` performs its only fallible step (the volume lookup) before anything that computes or writes the pod's usage:
+    only the pure `GetHostPorts` may precede it. A failed lookup therefore leaves the state node untouched. -/
+theorem fact_volume_lookup_before_writes :
+    updateForPodCalls.contains "GetVolumes" = true ∧
+    (updateForPodCalls.takeWhile (fun c => c != "GetVolumes")).all (fun c => c == "GetHostPorts") = true := by decide
+
+/-- nothing leaves the loops of `MarkForDeletion` / `UnmarkForDeletion` over the provider ids early -/
+theorem fact_mark_loops_total : markForDeletionLoopExits = [] ∧ unmarkForDeletionLoopExits = [] := by decide
+
+/-- `UpdateDaemonSet` decides what to cache from the listed pods alone (controller reference, creation time); it never reads
+    the cached value back -/
+theorem fact_daemonset_update_shape :
+    updateDaemonSetCalls.contains "Load" = false ∧
+    (updateDaemonSetCalls.contains "List" && updateDaemonSetCalls.contains "IsControlledBy" &&
+     updateDaemonSetCalls.contains "After" && updateDaemonSetCalls.contains "Store") = true := by decide
+
+/-- ONE call with several provider ids is the history of the single-id marks in argument order: every theorem over histories
+    (convergence, pool totals, counts) covers multi-id calls. -/
+theorem C11_markMany_is_history (fx : Fixes) (api : Api) (pids : List String) :
+    ∀ c : Cluster, run fx c api (pids.map Event.mark) = .ok (c.markMany pids, api) := by
+  induction pids with
+  | nil => intro c; rfl
+  | cons p ps ih =>
+    intro c
+    simp only [List.map_cons, run, Api.step, Cluster.step]
+    exact ih (c.markForDeletion p)
+
+theorem C11_unmarkMany_is_history (fx : Fixes) (api : Api) (pids : List String) :
+    ∀ c : Cluster, run fx c api (pids.map Event.unmark) = .ok (c.unmarkMany pids, api) := by
+  induction pids with
+  | nil => intro c; rfl
+  | cons p ps ih =>
+    intro c
+    simp only [List.map_cons, run, Api.step, Cluster.step]
+    exact ih (c.unmarkForDeletion p)
+
+/-- an id without state node is skipped and nothing else: it can be dropped from the argument list at any position -/
+theorem C11_markMany_skips_untracked (c : Cluster) (pre post : List String) (pid : String)
+    (h : (c.markMany pre).nodes.get pid = none) :
+    c.markMany (pre ++ pid :: post) = c.markMany (pre ++ post) := by
+  simp only [Cluster.markMany, List.foldl_append, List.foldl_cons]
+  have : Cluster.markForDeletion (List.foldl Cluster.markForDeletion c pre) pid = List.foldl Cluster.markForDeletion c pre := by
+    simp only [Cluster.markMany] at h
+    simp [Cluster.markForDeletion, h]
+  rw [this]
+
+example : (({} : Cluster).markMany ["gone"]).nodes.get "gone" = none := by decide
+
+/-- a Pod reconcile whose volume lookup fails changes nothing in the cache (the key is retried): histories with such
+    deliveries reach exactly the states of the histories without them -/
+theorem C11_failed_lookup_stutters (fx : Fixes) (c : Cluster) (api : Api) (name : String)
+    (h : c.lookupFails api name = true) :
+    c.recPodFaulty fx api name = .ok ((c, .none), true) := by
+  simp [Cluster.recPodFaulty, h]
+
+/-- … and when the lookup is not reached or succeeds it is the ordinary Pod reconcile -/
+theorem C11_faulty_delivery_is_recPod (fx : Fixes) (c : Cluster) (api : Api) (name : String)
+    (h : c.lookupFails api name = false) (r : Cluster × RecResult) (hr : c.step fx api (.recPod name) = .ok r) :
+    c.recPodFaulty fx api name = .ok (r, false) := by
+  simp [Cluster.recPodFaulty, h, hr]
+
+open Karp.Spec.ClusterAbsDs in
+/-- the DaemonSet cache as the code is: a DaemonSet that controls no pod any more keeps the pod cached earlier, which no
+    from-scratch computation produces (witness replayed on the real code: corpus/c11.daemonsets/known-f-*) -/
+theorem C11_daemonset_stale_entry_witness :
+    let p : DPod := { name := "q1", uid := "u1", ver := 1, ct := 1, own := "ds-d1-1", cpu := 100, tol := 0 }
+    let api1 : DsApi := { dss := [("d1", { name := "d1", uid := "ds-d1-1" })], pods := [("q1", p)] }
+    let api2 : DsApi := { api1 with pods := [] }
+    let cache : DsCache := DsCache.recDs false (DsCache.recDs false [] api1 api1.pods.vals "d1") api2 api2.pods.vals "d1"
+    let fixed : DsCache := DsCache.recDs true (DsCache.recDs true [] api1 api1.pods.vals "d1") api2 api2.pods.vals "d1"
+    dsFreshOk api2 "d1" (Map.get cache "d1") = false ∧ dsFreshOk api2 "d1" (Map.get fixed "d1") = true := by
+  decide
 
 end Karp.C11
